@@ -203,7 +203,7 @@ def run(ctx):
                        "HMAC-SHA256 rows are certified with CPython hmac/hashlib"]
     if ctx.want("toy"):
         curves = TOY[:2] if q else TOY
-        tabs = toy_tables(ctx, curves, ["ecdsa", "ecdsa-verify"], lambda n: (3 if n > 13 else n + 2) if q else ((n + 2) if n > 13 else (2 * n + 1)), lambda n: (2 * n + 1) if n <= 13 else (n + 2))
+        tabs = toy_tables(ctx, curves, ["ecdsa", "ecdsa-verify"], lambda n: (3 if n > 13 else n + 2) if q else (8 if n > 13 else (2 * n + 1)), lambda n: (2 * n + 1) if n <= 13 else (n + 2))      # (TLC builds no set above 10^6 rows)
         replay_ecdsa_toy(ctx, tabs)
         ctx.exhaustive.append("toy groups %s: every secret, nonce, digest in 0..ZMAX and every (r, s) in (0..2n+1)^2: Complete, LowS, curve-arithmetic verdict = discrete-log verdict" % curves)
         ctx.sample({"toy_verify_row": tabs[1][2]["rows"][7] if tabs[1][2] else None})
